@@ -115,7 +115,7 @@ theorem delivered_in_honest_record {C : Crypto} (hC : C.Ideal) (cfg : Cfg) (evs 
 /-- non-vacuity: a concrete run of the model on the toy instance in which a version and a message are delivered
     (and the theorem's conclusion is therefore about something). -/
 def demoCfg : Cfg := { side := "aa", secret := [0], versions := [123, 125] }
-def demoKey : Bytes := (toy.pakeFinish [0] [49] (toy.pakeStart [1] [49])).getD []
+def demoKey : Bytes := match toy.pakeFinish [0] [49] (toy.pakeStart [1] [49]) with | .key k => k | _ => []
 def demoSeal (φ : String) (pt : Bytes) : Bytes := toy.boxSeal ((phaseKey? toy demoKey "bb" φ).getD []) 0 pt
 def demoEvs : List Ev :=
   [.connected, .claimed, .code [49],
@@ -182,7 +182,7 @@ theorem relabelled_queued_before_pake_rejected {C : Crypto} (hC : C.Ideal) (cfg 
     (hkey : s.key = .S10) (hsk : s.sk = .S1_know_code) (hpw : s.pw = some pw) (hb : s.boss = .S1_lonely)
     (hr : s.rcv = .S0_unknown_key)
     (hside : f.side ≠ cfg.side) (hnew : s.processed.contains f.phase = false) (hp : f.phase = "pake")
-    (hbody : C.pakeDecode f.body = .elem e) (hfin : C.pakeFinish cfg.secret pw e = some K)
+    (hbody : C.pakeDecode f.body = .elem e) (hfin : C.pakeFinish cfg.secret pw e = .key K)
     (hown : phaseKey? C K cfg.side "version" = some dkv)
     (hascii : (phaseKey? C K g.side g.phase).isSome)
     (hseal : phaseKey? C K σ0 φ0 = some dk0 ∧ g.body = C.boxSeal dk0 n p)
@@ -211,7 +211,7 @@ example :
     let s := run toy demoCfg {} [.connected, .claimed, .code [49], .rx g]
     s.lo.mbox = .S2B ∧ s.lo.term = .Snmo ∧ s.ord = .S0_no_pake ∧ s.oq = [g] ∧ s.key = .S10 ∧ s.sk = .S1_know_code ∧
     s.pw = some [49] ∧ s.boss = .S1_lonely ∧ s.rcv = .S0_unknown_key ∧ s.processed.contains "pake" = false ∧
-    toy.pakeFinish demoCfg.secret [49] (toy.pakeStart [1] [49]) = some demoKey ∧
+    toy.pakeFinish demoCfg.secret [49] (toy.pakeStart [1] [49]) = .key demoKey ∧
     (phaseKey? toy demoKey demoCfg.side "version").isSome ∧ (phaseKey? toy demoKey "xx" "version").isSome ∧
     g.body = toy.boxSeal ((phaseKey? toy demoKey "bb" "version").getD []) 0 [123, 125] := by
   decide
@@ -224,36 +224,68 @@ theorem own_side_is_echo_never_decrypted (C : Crypto) (cfg : Cfg) (s : St) (f : 
       ({ s with lo := { s.lo with mbox := .S2B, pending := dictPop s.lo.pending f.phase } }, none) := by
   simp [step, wsMessage, mRxMessage, hside, hm, Mailbox.table, runOuts, mRxOut, liftLo, mLowOut]
 
-/-- A reflected or malformed SPAKE2 element, a PAKE body that does not decode: an exception, `Boss.error`, the
-    application gets `closed(error)`, no key is ever recorded (so nothing can be decrypted or delivered). -/
+/-- A PAKE message that is unusable — its body does not decode (`raise`), lacks `pake_v1` (`missing`), or carries
+    an element SPAKE2 refuses (malformed, off-curve, wrong side, reflected) — is treated like a wrong code: no exception
+    escapes, no key is ever recorded, nothing is delivered, Boss closes with `WrongPasswordError`, and the application
+    gets `closed(WrongPasswordError)` when the Terminator is done. -/
+theorem bad_pake_scared (C : Crypto) (cfg : Cfg) (s : St) (f : Frame) (pw : Bytes)
+    (hm : s.lo.mbox = .S2B) (ht : s.lo.term = .Snmo) (ho : s.ord = .S0_no_pake) (hoq : s.oq = [])
+    (hkey : s.key = .S10) (hsk : s.sk = .S1_know_code) (hpw : s.pw = some pw) (hb : s.boss = .S1_lonely)
+    (hside : f.side ≠ cfg.side) (hnew : s.processed.contains f.phase = false) (hp : f.phase = "pake")
+    (hbody : C.pakeDecode f.body = .raise ∨ C.pakeDecode f.body = .missing ∨
+             ∃ e, C.pakeDecode f.body = .elem e ∧ C.pakeFinish cfg.secret pw e = .refused) :
+    let r := step C cfg s (.rx f)
+    r.2 = none ∧ r.1.boss = .S3_closing ∧ r.1.result = .wrongPassword ∧ r.1.lo.mbox = .S3B ∧
+    r.1.rkey = s.rkey ∧ r.1.rcv = s.rcv ∧ r.1.app = s.app ∧
+    (step C cfg r.1 .tclosed).1.app = s.app ++ [.closed .wrongPassword] := by
+  have hnew' : f.phase ∉ s.processed := by simpa using hnew
+  have hnew'' : "pake" ∉ s.processed := hp ▸ hnew'
+  rcases hbody with hbody | hbody | ⟨e, hbody, hfin⟩
+  · simp [step, wsMessage, mRxMessage, hside, hm, Mailbox.table, runOuts, mRxOut, hnew'', oGotMessage, hp, ho,
+      Order.table, oOut, kInput, hkey, Key.table, kOut, skGotPake, hbody, skInput, hsk, SortedKey.table, skOut, hpw,
+      bossInput, hb, Boss.table, bossOut, liftLo, tClose, ht, Terminator.table, mLow, mLowOut, deliverAll, hoq]
+  · simp [step, wsMessage, mRxMessage, hside, hm, Mailbox.table, runOuts, mRxOut, hnew'', oGotMessage, hp, ho,
+      Order.table, oOut, kInput, hkey, Key.table, kOut, skGotPake, hbody, skInput, hsk, SortedKey.table, skOut, hpw,
+      bossInput, hb, Boss.table, bossOut, liftLo, tClose, ht, Terminator.table, mLow, mLowOut, deliverAll, hoq]
+  · simp [step, wsMessage, mRxMessage, hside, hm, Mailbox.table, runOuts, mRxOut, hnew'', oGotMessage, hp, ho,
+      Order.table, oOut, kInput, hkey, Key.table, kOut, skGotPake, hbody, skInput, hsk, SortedKey.table, skOut, hpw,
+      bossInput, hb, Boss.table, bossOut, liftLo, tClose, ht, Terminator.table, mLow, mLowOut, deliverAll, hoq, hfin]
+
+/-- In particular the client's own SPAKE2 element, reflected to it under another side, is refused. -/
 theorem pake_reflection_rejected {C : Crypto} (hC : C.Ideal) (cfg : Cfg) (s : St) (f : Frame) (pw : Bytes)
-    (hm : s.lo.mbox = .S2B) (ho : s.ord = .S0_no_pake) (hkey : s.key = .S10) (hsk : s.sk = .S1_know_code)
-    (hpw : s.pw = some pw) (hb : s.boss = .S1_lonely)
+    (hm : s.lo.mbox = .S2B) (ht : s.lo.term = .Snmo) (ho : s.ord = .S0_no_pake) (hoq : s.oq = [])
+    (hkey : s.key = .S10) (hsk : s.sk = .S1_know_code) (hpw : s.pw = some pw) (hb : s.boss = .S1_lonely)
     (hside : f.side ≠ cfg.side) (hnew : s.processed.contains f.phase = false) (hp : f.phase = "pake")
     (hbody : C.pakeDecode f.body = .elem (C.pakeStart cfg.secret pw)) :
     let r := step C cfg s (.rx f)
-    r.2 = some .pake ∧ r.1.boss = .S4_closed ∧ r.1.rkey = s.rkey ∧ r.1.rcv = s.rcv ∧
-    r.1.app = s.app ++ [.closed (.error .pake)] := by
-  have hnew' : f.phase ∉ s.processed := by simpa using hnew
-  have hnew'' : "pake" ∉ s.processed := hp ▸ hnew'
-  simp [step, wsMessage, mRxMessage, hside, hm, Mailbox.table, runOuts, mRxOut, hnew'', oGotMessage, hp, ho,
-    Order.table, oOut, kInput, hkey, Key.table, kOut, skGotPake, hbody, skInput, hsk, SortedKey.table, skOut, hpw,
-    hC.pake_reflect, bossInput, hb, Boss.table, bossOut]
+    r.2 = none ∧ r.1.boss = .S3_closing ∧ r.1.result = .wrongPassword ∧ r.1.rkey = s.rkey ∧ r.1.app = s.app := by
+  have := bad_pake_scared C cfg s f pw hm ht ho hoq hkey hsk hpw hb hside hnew hp
+    (Or.inr (Or.inr ⟨_, hbody, hC.pake_reflect _ _⟩))
+  exact ⟨this.1, this.2.1, this.2.2.1, this.2.2.2.2.1, this.2.2.2.2.2.2.1⟩
 
-/-- A PAKE body without `pake_v1`: `_SortedKey` is scared, Boss closes with `WrongPasswordError`. -/
-theorem pake_missing_scared (C : Crypto) (cfg : Cfg) (s : St) (f : Frame)
-    (hm : s.lo.mbox = .S2B) (ht : s.lo.term = .Snmo) (ho : s.ord = .S0_no_pake) (hoq : s.oq = [])
-    (hkey : s.key = .S10) (hsk : s.sk = .S1_know_code) (hb : s.boss = .S1_lonely)
-    (hside : f.side ≠ cfg.side) (hnew : s.processed.contains f.phase = false) (hp : f.phase = "pake")
-    (hbody : C.pakeDecode f.body = .missing) :
+/-- non-vacuity: the demo client after `code`, before any PAKE message; the toy instance refuses its own element -/
+example :
+    let s := run toy demoCfg {} [.connected, .claimed, .code [49]]
+    s.lo.mbox = .S2B ∧ s.lo.term = .Snmo ∧ s.ord = .S0_no_pake ∧ s.oq = [] ∧ s.key = .S10 ∧ s.sk = .S1_know_code ∧
+    s.pw = some [49] ∧ s.boss = .S1_lonely ∧ s.processed.contains "pake" = false ∧
+    toy.pakeDecode (toy.pakeEncode (toy.pakeStart demoCfg.secret [49])) = .elem (toy.pakeStart demoCfg.secret [49]) ∧
+    toy.pakeDecode [7] = .raise ∧ toy.pakeDecode [6] = .missing := by
+  decide
+
+/-- A message that reaches Receive while no key exists (the PAKE message was unusable, or it overtook our own code and
+    is stashed): nobody can have sealed it for us; Receive is scared, Boss closes with `WrongPasswordError` — also
+    before the code is known (`S0_empty`) — and nothing is delivered. -/
+theorem message_without_key_scared (C : Crypto) (cfg : Cfg) (s : St) (f : Frame)
+    (hm : s.lo.mbox = .S2B) (ht : s.lo.term = .Snmo) (ho : s.ord = .S1_yes_pake) (hk : s.rkey = none)
+    (hr : s.rcv = .S0_unknown_key) (hb : s.boss = .S0_empty ∨ s.boss = .S1_lonely)
+    (hside : f.side ≠ cfg.side) (hnew : s.processed.contains f.phase = false) (hnp : f.phase ≠ "pake") :
     let r := step C cfg s (.rx f)
-    r.2 = none ∧ r.1.sk = .S3_scared ∧ r.1.boss = .S3_closing ∧ r.1.result = .wrongPassword ∧
-    r.1.rkey = s.rkey ∧ r.1.app = s.app := by
+    r.2 = none ∧ r.1.rcv = .S3_scared ∧ r.1.boss = .S3_closing ∧ r.1.result = .wrongPassword ∧ r.1.app = s.app := by
   have hnew' : f.phase ∉ s.processed := by simpa using hnew
-  have hnew'' : "pake" ∉ s.processed := hp ▸ hnew'
-  simp [step, wsMessage, mRxMessage, hside, hm, Mailbox.table, runOuts, mRxOut, hnew'', oGotMessage, hp, ho,
-    Order.table, oOut, kInput, hkey, Key.table, kOut, skGotPake, hbody, skInput, hsk, SortedKey.table, skOut,
-    bossInput, hb, Boss.table, bossOut, liftLo, tClose, ht, Terminator.table, mLow, mLowOut, deliverAll, hoq]
+  rcases hb with hb | hb <;>
+    simp [step, wsMessage, mRxMessage, hside, hm, Mailbox.table, runOuts, mRxOut, hnew', oGotMessage, hnp, ho,
+      Order.table, oOut, rGotMessage, hk, rInput, hr, Receive.table, rOut, bossInput, hb, Boss.table,
+      bossOut, liftLo, tClose, ht, Terminator.table, mLow, mLowOut]
 
 /-! ## phase_at_most_once -/
 
